@@ -346,6 +346,33 @@ pub fn run(rep: &mut Rep) {
                     }
                     None => viol(rep, "live:empty_indices:layout", json!({"bytes": hex_short(&out)})),
                 }
+                // proving requests written by the independent encoder must be decoded by zerokit into the witness
+                // the independent decoder expects (interoperability of the request layout), for every signal length
+                for (j, sig_len) in [0usize, 1, 2, 31, 32, 33, 135, 136, 137, 300, 5000].iter().enumerate() {
+                    rep.ev();
+                    rep.stratum(format!("live|prove-request-decode|sig_len={sig_len}"));
+                    let signal = rand_bytes(&mut rng, *sig_len);
+                    let (secret, limit, id, ext) = (rand_fr(&mut rng), Fr::from(100u64), Fr::from(j as u64), rand_fr(&mut rng));
+                    let idx = [0usize, 3, 5, 11, (1 << 20) - 1][j % 5];
+                    let req = enc_prove_request(&secret, idx as u64, &limit, &id, &ext, &signal);
+                    match catch(|| r.get_serialized_rln_witness(Cursor::new(req.clone())).map_err(|e| e.to_string())) {
+                        Ok(Ok(wb)) => match dec_witness(&wb) {
+                            Some(w) => {
+                                let x_want = crate::refhash::hash_to_field_ref(&signal);
+                                if w.secret != secret || w.limit != limit || w.msg_id != id || w.ext != ext || w.x != x_want || w.path.len() != 20 || w.bits.len() != 20 {
+                                    viol(rep, "prove_request:decoded-fields-differ", json!({"sig_len": sig_len, "request": hex_short(&req)}));
+                                }
+                                let dec_idx: usize = w.bits.iter().enumerate().map(|(k, bit)| (*bit as usize) << k).sum();
+                                if dec_idx != idx {
+                                    viol(rep, "prove_request:decoded-index-differs", json!({"index": idx, "decoded": dec_idx}));
+                                }
+                            }
+                            None => viol(rep, "prove_request:witness-layout", json!({"sig_len": sig_len, "witness": hex_short(&wb)})),
+                        },
+                        Ok(Err(e)) => viol(rep, "prove_request:well-formed-request-rejected", json!({"sig_len": sig_len, "error": e, "request": hex_short(&req)})),
+                        Err(p) => viol(rep, "prove_request:decode-panic", json!({"sig_len": sig_len, "panic": p.msg})),
+                    }
+                }
                 for k in 0..50 {
                     rep.ev();
                     let mut out = vec![];
